@@ -148,15 +148,25 @@ def run(facts, rep, ctx):
         for p in paths:
             for (bb, term, vals, neg, dty) in p.conds:
                 ct = cond_truth((term, vals, neg, dty))
-                if ct and ct[0][0] == "bin" and ct[0][1] == "Eq" and ct[0][3] == ("const", 0, "u32") and any(x[0] == "call" and x[1].endswith("BinArchive::read_u32") and x[2][1] == ("const", 0, "usize") for x in walk(ct[0][2])):
+                is_word0 = lambda t_: any(x[0] == "call" and x[1].endswith("BinArchive::read_u32") and len(x[2]) > 1 and x[2][1][:2] == ("const", 0) for x in walk(t_))
+                zero = None
+                if ct and ct[0][0] == "bin" and ct[0][1] in ("Eq", "Ne") and ct[0][3][:2] == ("const", 0) and is_word0(ct[0][2]):
+                    zero = ct[1] == (ct[0][1] == "Eq")
+                elif not ct and dty in ("u32", "u64", "usize") and term[0] != "discr" and not any(x[0] == "bin" for x in walk(term)) and is_word0(term) and vals == (0,):
+                    zero = not neg          # `match word { 0 => .., _ => .. }`
+                if zero is not None:
                     v = (p.env or {}).get(pl)
                     if v is not None and v[0] == "const":
-                        pad.setdefault(ct[1], set()).add(v[1])
-        if pad.get(True) == {0x60}:
+                        pad.setdefault(zero, set()).add(v[1])
+        if not pad.get(True) or not pad.get(False):
+            rep.inconc(R3, "how the header padding depends on the first word was not recognised (%s)" % pad)
+        elif pad.get(True) == {0x60}:
             rep.ok(R3, {"first_word_zero": "padding 0x60"})
         else:
             rep.violation(R3, b.name, "padding-zero", "first word 0 gives padding %s (specified 0x60)" % sorted(pad.get(True, [])), where)
-        if pad.get(False) == {0}:
+        if not pad.get(True) or not pad.get(False):
+            pass
+        elif pad.get(False) == {0}:
             rep.ok(R3, {"first_word_nonzero": "padding 0"})
         else:
             rep.violation(R3, b.name, "padding-nonzero", "first word non-zero gives padding %s (specified 0)" % sorted(pad.get(False, [])), where)
